@@ -1095,6 +1095,60 @@ def cache_key_equality(repo: Repo, prefixes: Iterable[str]):
                     extra = sorted(reads - eq_fields)
                     if extra:
                         out.append((f, p.arg, k, sorted(eq_fields), extra))
+    # classes of the scope whose equality goes through a key subset held in
+    # an attribute (`getattr(self, k) for k in self._compare_keys`): two
+    # objects with the same key and different payload are equal and hash
+    # alike.  A functools cache on a function that takes values of unknown
+    # class (annotated Any / object, or not annotated) next to such classes
+    # answers for the first payload only.
+    partial = []
+    for q, c in repo.classes.items():
+        if not q.startswith(tuple(prefixes)):
+            continue
+        eq = c.methods.get('__eq__')
+        if eq is None or c.methods.get('__hash__') is None:
+            continue
+        for x in ast.walk(eq.node):
+            if isinstance(x, (ast.GeneratorExp, ast.ListComp)) and len(
+                    x.generators) == 1:
+                it = x.generators[0].iter
+                src = None
+                if isinstance(it, ast.Attribute) and norm(
+                        it.value) == 'self':
+                    src = norm(it)
+                elif isinstance(it, ast.Name):
+                    for a_ in ast.walk(eq.node):
+                        if isinstance(a_, ast.Assign) and norm(
+                                a_.targets[0]) == it.id and isinstance(
+                                a_.value, ast.Attribute) and norm(
+                                a_.value.value) == 'self':
+                            src = norm(a_.value)
+                if src and any(isinstance(y, ast.Call) and norm(
+                        y.func) == 'getattr' for y in ast.walk(x.elt)):
+                    partial.append((c.name, src))
+                    break
+    if partial:
+        for m in repo.modules.values():
+            if not m.name.startswith(tuple(prefixes)):
+                continue
+            for f in repo._funcs_of(m):
+                decs = [norm(d) for d in f.node.decorator_list]
+                if not any('lru_cache' in d or (
+                        d.startswith('functools.cache')
+                        and 'cached_property' not in d) for d in decs):
+                    continue
+                a = f.node.args
+                for p in a.posonlyargs + a.args + a.kwonlyargs:
+                    ann = norm(p.annotation) if p.annotation is not None \
+                        else ''
+                    if p.arg in ('self', 'cls'):
+                        continue
+                    if ann.split('.')[-1] in ('Any', 'object') or not ann:
+                        n += 1
+                        out.append((f, p.arg, partial[0][0],
+                                    [partial[0][1]],
+                                    ['every field outside ' + partial[0][1]]))
+                        break
     return n, out
 
 
